@@ -6,11 +6,7 @@ sys.path.insert(0, HERE)
 from eqlsa.props import load_all
 from eqlsa.methods import technique_of
 
-NOT_APPLICABLE = {
-    "C15": "equality of result sets between a composed and an inlined expression tree: depends on runtime duplicate "
-           "suppression and truth flags with a quantifier node in the middle of the tree; no clause of it is visible in "
-           "the shape of the code that the test-suite does not already pin (DESIGN.md §2 C15, §4)",
-}
+NOT_APPLICABLE = {}
 specs = load_all()
 props = [json.loads(l) for l in open(os.path.join(HERE, "properties.jsonl"))]
 checks, na = [], []
